@@ -241,7 +241,13 @@ def r07_c(prog: Program, chk: Check) -> None:
     roles = Roles(fn, {"self": EXP, "other": ACT})
     tail = None
     for n in walk_no_nested(fn):
-        if isinstance(n, ast.For) and roles.of(n.iter) == {ACT} and any("takes extra" in norm(x) for x in ast.walk(n)):
+        if (
+            isinstance(n, ast.For)
+            and isinstance(n.target, ast.Name)
+            and roles.of(n.iter) == {ACT}
+            and any(isinstance(x, ast.Return) and x.value is not None and "CanAssignError" in norm(x.value) for x in ast.walk(n))
+            and not any(isinstance(x, ast.Call) and last_attr(x) == "can_assign" for x in ast.walk(n))
+        ):
             tail = n
     if tail is None:
         raise AnchorError("Signature.can_assign: tail loop over the actual parameters not found")
